@@ -32,6 +32,8 @@ struct Pending {
     id: RequestId,
     peer: usize,
     distances: Vec<u64>,
+    /// when the service handed the request to the handler
+    t_ms: u64,
 }
 
 async fn run_async(ctx: &mut Ctx, which: Which) {
@@ -39,8 +41,10 @@ async fn run_async(ctx: &mut Ctx, which: Which) {
     let query_timeout_s = *ctx.tape.pick(&[60u64, 5]);
     // ban duration: the default (1 h), a short one, or None = banned for good
     let ban_knob = ctx.tape.choose(4);
+    // the node's own max_nodes_response (a serving parameter; the cap on collected packets must not depend on it)
+    let max_nodes_response = *ctx.tape.pick(&[16usize, 16, 4, 20, 32, 64]);
     let mut sw = match SWorld::new(0, true, ListenConfig::Ipv4 { ip: std::net::Ipv4Addr::new(10, 1, 0, 250), port: 9000 }, |b| {
-        b.query_parallelism(parallelism).query_timeout(std::time::Duration::from_secs(query_timeout_s)).disable_enr_update();
+        b.query_parallelism(parallelism).query_timeout(std::time::Duration::from_secs(query_timeout_s)).disable_enr_update().max_nodes_response(max_nodes_response);
         match ban_knob {
             0 => {
                 b.ban_duration(None);
@@ -62,7 +66,8 @@ async fn run_async(ctx: &mut Ctx, which: Which) {
     // universe of identities: peers of the local node + their neighbours
     let nu = 10 + ctx.tape.choose(30) as usize;
     let universe: Vec<usize> = (8..8 + nu).collect();
-    let ntable = 1 + ctx.tape.choose(10.min(nu as u32)) as usize;
+    // usually a small table; sometimes one with more entries than a lookup takes as seeds (k = 16)
+    let ntable = if ctx.tape.choose(4) == 0 { nu.min(17 + ctx.tape.choose(20) as usize) } else { 1 + ctx.tape.choose(10.min(nu as u32)) as usize };
     let table_peers: Vec<usize> = universe.iter().copied().take(ntable).collect();
     let malicious_pct = if which.c11 { *ctx.tape.pick(&[0u32, 20, 60]) } else { *ctx.tape.pick(&[0u32, 0, 20]) };
     let fail_pct = *ctx.tape.pick(&[0u32, 10, 40]);
@@ -104,6 +109,17 @@ async fn run_async(ctx: &mut Ctx, which: Which) {
     let mut steps = 0;
     let mut result: Option<Result<Vec<Enr>, String>> = None;
     let mut lookup = Some(lookup);
+    // candidates the lookup certainly learnt of: records the service accepted from answers to its requests
+    let mut learnt: BTreeSet<usize> = BTreeSet::new();
+    let mut t_result = 0u64;
+    // requests the harness sits on (a silent peer); after the first lookup they are answered while a second
+    // lookup runs: answers to requests of an ended lookup must not count for the next one
+    let mut held: Vec<Pending> = vec![];
+    let mut stale: BTreeSet<Vec<u8>> = BTreeSet::new();
+    let mut second_lookup_started = false;
+    let mut held_since = 0u64;
+    let mut target = target;
+    let mut t_start = t_start;
     loop {
         steps += 1;
         if ctx.failed() || steps > 4000 {
@@ -127,7 +143,7 @@ async fn run_async(ctx: &mut Ctx, which: Which) {
                             if which.c09_10 && asked[&peer] > 1 {
                                 ctx.fail("c09.peer-asked-twice", format!("the lookup sent its request to peer #{peer} twice"), &[]);
                             }
-                            pending.push(Pending { id: req.id, peer, distances });
+                            pending.push(Pending { id: req.id, peer, distances, t_ms: now_ms() });
                         }
                         RequestBody::Talk { .. } => {}
                     }
@@ -135,11 +151,15 @@ async fn run_async(ctx: &mut Ctx, which: Which) {
                 HandlerIn::Response(..) | HandlerIn::WhoAreYou(..) => {}
             }
         }
-        if which.c09_10 && pending.len() > parallelism.max(16) {
-            ctx.fail("c09.parallelism-exceeded", format!("{} FINDNODE requests in flight, parallelism {parallelism}", pending.len()), &[]);
+        // in flight = handed to the handler, not yet answered and (for requests the harness sits on) not yet past the
+        // lookup's peer timeout (default 2 s), after which the lookup rightly stops waiting for that peer
+        let now = now_ms();
+        let in_flight = pending.iter().filter(|p| !stale.contains(&p.id.0)).count() + held.iter().filter(|p| !stale.contains(&p.id.0) && p.t_ms + 2000 > now).count();
+        if which.c09_10 && in_flight > parallelism.max(16) {
+            ctx.fail("c09.parallelism-exceeded", format!("{in_flight} FINDNODE requests in flight, parallelism {parallelism}"), &[]);
         }
-        if which.c09_10 && answered_ok.len() < parallelism && pending.len() > parallelism {
-            ctx.fail("c09.parallelism-exceeded", format!("{} FINDNODE requests in flight before {parallelism} answers had been delivered (parallelism {parallelism})", pending.len()), &[]);
+        if which.c09_10 && answered_ok.len() < parallelism && in_flight > parallelism {
+            ctx.fail("c09.parallelism-exceeded", format!("{in_flight} FINDNODE requests of the lookup in flight before {parallelism} answers to it had been delivered (parallelism {parallelism})"), &[]);
         }
         // has the lookup finished?
         if let Some(h) = lookup.as_ref() {
@@ -150,12 +170,45 @@ async fn run_async(ctx: &mut Ctx, which: Which) {
                     Ok(Err(e)) => Err(format!("{e:?}")),
                     Err(e) => Err(format!("join error {e}")),
                 });
+                t_result = now_ms();
+                if which.c09_10 && !second_lookup_started && !predicate_lookup && !held.is_empty() && !ctx.failed() && ctx.tape.choose(2) == 0 {
+                    // the first lookup is over (its result is checked now); a second one starts while requests of the
+                    // first are still unanswered
+                    check_lookup_result(ctx, &result, &sw.local_id, &target, predicate_lookup, &asked, &answered_ok, &learnt, t_start, t_result, query_timeout_s, pending.len());
+                    second_lookup_started = true;
+                    ctx.fault("second_lookup_with_stale_requests");
+                    // the stale requests go (back) into the pool of answerable requests
+                    pending.append(&mut held);
+                    for p in pending.iter() {
+                        stale.insert(p.id.0.clone());
+                    }
+                    asked.clear();
+                    answered_ok.clear();
+                    learnt.clear();
+                    result = None;
+                    let mut raw = target.raw();
+                    raw[31] ^= 0x10;
+                    raw[0] ^= 0x80;
+                    target = NodeId::new(&raw);
+                    ctx.ev(format!("t={} second lookup, target {} ({} requests of the first still unanswered)", now_ms(), short(&target), stale.len()));
+                    lookup = Some(tokio::spawn(sw.d.find_node(target)));
+                    t_start = now_ms();
+                    continue;
+                }
                 break;
             }
         }
         if pending.is_empty() {
             // nothing to answer: let simulated time pass (peer timeouts / query timeout)
             tokio::time::sleep(std::time::Duration::from_millis(200)).await;
+            // the handler contract: a request that stays unanswered is reported as failed in the end (that report is
+            // also what makes the service look at its lookups again)
+            if !held.is_empty() && now_ms() > held_since + 3000 {
+                let p = held.remove(0);
+                ctx.ev(format!("t={} n#{} -> RequestFailed(Timeout) (was silent)", now_ms(), p.peer));
+                sw.emit(HandlerOut::RequestFailed(p.id, RequestError::Timeout)).await;
+                held_since = now_ms();
+            }
             if now_ms() > t_start + (query_timeout_s + 30) * 1000 {
                 break;
             }
@@ -163,7 +216,17 @@ async fn run_async(ctx: &mut Ctx, which: Which) {
         }
         // ---- answer one pending request completely (so that events are attributable)
         let k = ctx.tape.choose(pending.len() as u32) as usize;
+        if which.c09_10 && !second_lookup_started && pending.len() >= 2 && !stale.contains(&pending[k].id.0) && ctx.tape.choose(6) == 0 {
+            // a silent peer: the request stays unanswered (the lookup's peer timeout deals with it)
+            ctx.fault("silent_peer");
+            ctx.ev(format!("t={} n#{} stays silent", now_ms(), pending[k].peer));
+            let p = pending.remove(k);
+            held.push(p);
+            held_since = now_ms();
+            continue;
+        }
         let p = pending.remove(k);
+        let is_stale = stale.contains(&p.id.0);
         let rid = peer_id(p.peer);
         let _ = sw.take_events();
         if ctx.tape.choose(100) < fail_pct {
@@ -180,8 +243,9 @@ async fn run_async(ctx: &mut Ctx, which: Which) {
         }
         let mut per_distance = 0;
         for &u in &universe {
-            if u != p.peer && p.distances.contains(&dist(&rid, &peer_id(u))) && per_distance < 16 {
-                // the requester itself is never returned by an honest node
+            if u != p.peer && p.distances.contains(&dist(&rid, &peer_id(u))) && per_distance < max_nodes_response {
+                // the requester itself is never returned by an honest node; an honest node of this implementation
+                // (same configuration as the local node) returns at most max_nodes_response table records
                 valid.push(peer_enr(u, 1 + (u % 2) as u64));
                 per_distance += 1;
             }
@@ -333,12 +397,21 @@ async fn run_async(ctx: &mut Ctx, which: Which) {
             sw.emit(HandlerOut::RequestFailed(p.id.clone(), RequestError::Timeout)).await;
             sw.settle().await;
             discovered.extend(sw.take_events().into_iter().filter_map(|e| if let Event::Discovered(enr) = e { Some(enr.node_id()) } else { None }));
-        } else {
+        } else if !is_stale {
             answered_ok.insert(p.peer);
         }
-        if delivered > 0 {
+        if delivered > 0 && !is_stale {
             // a partial answer is still an answer (the service processes partial results)
             answered_ok.insert(p.peer);
+        }
+        if !is_stale {
+            for id in &discovered {
+                if let Some(c) = ident_of(id) {
+                    if c != p.peer {
+                        learnt.insert(c);
+                    }
+                }
+            }
         }
         if which.c11 {
             ctx.count("responses_checked");
@@ -417,11 +490,35 @@ async fn run_async(ctx: &mut Ctx, which: Which) {
             }
         }
     }
-    // ---- the lookup's result
+    // ---- the (last) lookup's result
     if !ctx.failed() && which.c09_10 {
+        check_lookup_result(ctx, &result, &sw.local_id, &target, predicate_lookup, &asked, &answered_ok, &learnt, t_start, t_result, query_timeout_s, pending.len());
+    }
+    ctx.sample = Some(serde_json::json!({"asked": asked.len(), "answered": answered_ok.len(), "result": result.as_ref().map(|r| r.as_ref().map(|v| v.len()).unwrap_or(0))}));
+    if !asked.is_empty() {
+        ctx.nontrivial = true;
+    }
+    sw.shutdown();
+}
+
+#[allow(clippy::too_many_arguments)]
+fn check_lookup_result(
+    ctx: &mut Ctx,
+    result: &Option<Result<Vec<Enr>, String>>,
+    local_id: &NodeId,
+    target: &NodeId,
+    predicate_lookup: bool,
+    asked: &BTreeMap<usize, u32>,
+    answered_ok: &BTreeSet<usize>,
+    learnt: &BTreeSet<usize>,
+    t_start: u64,
+    t_result: u64,
+    query_timeout_s: u64,
+    unanswered: usize,
+) {
         match &result {
             None => {
-                ctx.fail("c09.no-termination", format!("the lookup did not hand a result to its caller within query_timeout + 30 s of simulated time ({} requests still unanswered)", pending.len()), &[]);
+                ctx.fail("c09.no-termination", format!("the lookup did not hand a result to its caller within query_timeout + 30 s of simulated time ({} requests still unanswered)", unanswered), &[]);
             }
             Some(Err(e)) => {
                 ctx.fail("c09.result-not-delivered", format!("the lookup's caller got an error instead of a result: {e}"), &[]);
@@ -449,6 +546,19 @@ async fn run_async(ctx: &mut Ctx, which: Which) {
                         ctx.fail("c10.result-never-answered", format!("lookup result {} never answered the lookup's request", short(id)), &[]);
                     }
                 }
+                // completeness at the service: fewer than k results and not cut off by the query timeout => every
+                // candidate the lookup learnt of (a record accepted from an answer to one of its requests) was asked
+                let cut_off = t_result.saturating_sub(t_start) + 250 >= query_timeout_s * 1000;
+                if !predicate_lookup && ids.len() < k && !cut_off && !ctx.failed() {
+                    ctx.count("service_lookup_completeness_checked");
+                    if let Some(c) = learnt.iter().find(|c| !asked.contains_key(c) && peer_id(**c) != *local_id) {
+                        ctx.fail(
+                            "c10.incomplete",
+                            format!("the lookup returned {} < {k} nodes after {}ms (query timeout {query_timeout_s}s) without ever contacting #{c}, whose record it had accepted from an answer", ids.len(), t_result.saturating_sub(t_start)),
+                            &["service-level"],
+                        );
+                    }
+                }
                 if predicate_lookup {
                     for e in v {
                         if e.seq() % 2 != 1 && !ctx.failed() {
@@ -458,10 +568,4 @@ async fn run_async(ctx: &mut Ctx, which: Which) {
                 }
             }
         }
-    }
-    ctx.sample = Some(serde_json::json!({"asked": asked.len(), "answered": answered_ok.len(), "result": result.as_ref().map(|r| r.as_ref().map(|v| v.len()).unwrap_or(0))}));
-    if !asked.is_empty() {
-        ctx.nontrivial = true;
-    }
-    sw.shutdown();
 }
